@@ -303,10 +303,15 @@ def cond_signature(e):
     if c:
         op, l, r = c
         la, ra = _sig_atoms(l), _sig_atoms(r)
-        # normalise direction so that `a > b` and `b < a` coincide
-        if op in ("Lt", "Le") or (op in ("Eq", "Ne") and json.dumps(la) > json.dumps(ra)):
-            op, la, ra = SWAP[op], ra, la
-        return [op, la, ra]
+        # canonical form independent of branch polarity and operand order: a comparison and its negation are the same test
+        #   a > b, a <= b -> Gt(a, b)      a < b, a >= b -> Gt(b, a)      a == b, a != b -> Eq(sorted sides)
+        if op in ("Eq", "Ne"):
+            if json.dumps(la) > json.dumps(ra):
+                la, ra = ra, la
+            return ["Eq", la, ra]
+        if op in ("Gt", "Le"):
+            return ["Gt", la, ra]
+        return ["Gt", ra, la]
     neg = False
     ee = e
     while ee.kind == "un" and ee.a == "Not":
@@ -330,7 +335,7 @@ def _sig_atoms(e):
     return sorted(out)
 
 
-def scope(F, prop_record, depth=2):
+def scope(F, prop_record, depth=2, want_named=False):
     """Functions a property names: defined in one of its anchor files and mentioned (by method or Type::method name) in its
     mechanism list, plus the functions of the anchor files they call (transitively, `depth` levels) and the closures inside those."""
     files = set(prop_record["anchors"]["files"])
@@ -338,11 +343,24 @@ def scope(F, prop_record, depth=2):
     words = set(re.findall(r"[A-Za-z_][A-Za-z0-9_]*", text))
     in_files = {k for k, fn in F.fns.items() if fn["span"]["file"] in files}
     named = set()
+    by_method = collections.defaultdict(list)
     for k in in_files:
         base = re.sub(r"(::\{closure#\d+\})+$", "", k)
         m = re.sub(r"^.*::", "", re.sub(r"<[^<>]*>", "", base))
         if m in words and len(m) > 3:
-            named.add(k)
+            by_method[m].append(k)
+    for m, ks in by_method.items():
+        bases = {re.sub(r"(::\{closure#\d+\})+$", "", k) for k in ks}
+        for k in ks:
+            base = re.sub(r"(::\{closure#\d+\})+$", "", k)
+            fn = F.fns.get(base) or F.fns[k]
+            st = (fn.get("impl_self") or {}).get("s", "")
+            tr = (fn.get("impl_trait") or "").split("::")[-1]
+            ty = re.sub(r"<.*$", "", st).split("::")[-1]
+            # a method name shared by several types counts only for the types (or traits) the property mentions;
+            # serialisation impls always count (every one of them is decode/encode surface)
+            if len(bases) == 1 or not st or ty in words or tr in words or tr in ("Readable", "Writeable"):
+                named.add(k)
     out = set(named)
     frontier = set(named)
     for _ in range(depth):
@@ -359,6 +377,10 @@ def scope(F, prop_record, depth=2):
         base = re.sub(r"(::\{closure#\d+\})+$", "", k)
         if base in out:
             out.add(k)
+        if base in named:
+            named.add(k)
+    if want_named:
+        return sorted(out), named
     return sorted(out)
 
 
@@ -385,11 +407,17 @@ def _closure_role(F, k):
     return k
 
 
-def generate(F, prop_record):
+def generate(F, prop_record, named_elsewhere=()):
+    """Baseline of one property. A function that the property reaches but does not name is left to the properties that do name it
+    (`named_elsewhere`), so that a change is reported under the properties whose mechanism it touches."""
     out = {}
-    for k in scope(F, prop_record):
+    fns, named = scope(F, prop_record, want_named=True)
+    for k in fns:
+        if k not in named and k in named_elsewhere:
+            continue
         s = summarize(F, k)
         if s["must"] or s["order"] or s["args"] or s["guards"] or s["assigns"] or s["ret"] or s["consts"]:
+            s["named"] = k in named
             out[_closure_role(F, k)] = s
     return out
 
@@ -411,6 +439,10 @@ def check(ctx, prop):
     bad = 0
     for role, b in sorted(base.items()):
         k = roles.get(role)
+        if k is None and not b.get("named", True):
+            # a helper the property does not name was renamed, inlined or removed: its callers' summaries still constrain the behaviour
+            ctx.stats["baseline_helpers_gone"] = ctx.stats.get("baseline_helpers_gone", 0) + 1
+            continue
         if k is None:
             bad += 1
             ctx.record("baseline", "R9", role, "function named by the property is present", "anchor-lost", [], ["function not found (renamed or removed): " + role], key_detail="lost:" + role)
@@ -482,7 +514,7 @@ def check(ctx, prop):
                 if cg[0] == g[0] and set(g[1]) <= set(cg[1]) and set(g[2]) <= set(cg[2]):
                     hit = i
                     break
-                if g[0] in ("Eq", "Ne") and cg[0] == g[0] and set(g[1]) <= set(cg[2]) and set(g[2]) <= set(cg[1]):
+                if g[0] == "Eq" and cg[0] == "Eq" and set(g[1]) <= set(cg[2]) and set(g[2]) <= set(cg[1]):
                     hit = i
                     break
             if hit is not None:
